@@ -46,6 +46,8 @@ pub use notification_handler::on_notification_handler;
 pub use request_handler::on_request_handler;
 pub use response_handler::on_response_handler;
 pub use text_document::register_files_watch;
+#[cfg(feature = "verif")]
+pub use {references::references as verif_references, rename::rename as verif_rename};
 
 pub trait RegisterCapabilities {
     fn register_capabilities(
